@@ -5,6 +5,7 @@ import Driver.Stream
 import Driver.Retry
 import Driver.Mux
 import Driver.Dict
+import Driver.SM
 /-!
   Driver — reads correspondence lines `domain op args… => impl-output` on stdin and prints,
   per line, tab-separated: index, agree|DISAGREE|BADLINE, Spec verdicts (comma separated or
@@ -64,6 +65,20 @@ def handle (st : St) (idx : Nat) (line : String) : St × String :=
            ((kv rest "mode").getD "first") as implToks
          ({ st with intern := i' }, emit idx impl j)
        | none => bad)
+    | "smserver" :: "multi" :: rest =>
+      let locals := ((kv rest "locals").getD "").splitOn ","
+      let segss := ((kv rest "segs").getD "").splitOn "^"
+      let implParts := (" ".intercalate implToks).splitOn " || "
+      let (i', outs, fails, tags) := (locals.zip segss).zipIdx.foldl (fun (acc : Intern × List String × List String × List String) x =>
+        let ((l, sg), k) := x
+        let (i2, j) := judgeSMServer dict acc.1 ((kvNat rest "cfg").getD 0) l ((kv rest "regs").getD "-") sg
+          (((implParts.getD k "").splitOn " ").filter (· ≠ ""))
+        (i2, acc.2.1 ++ [j.model], acc.2.2.1 ++ j.fails, acc.2.2.2 ++ j.tags)) (st.intern, [], [], [])
+      ({ st with intern := i' }, emit idx impl { model := " || ".intercalate outs, fails := fails, tags := ("multi" :: tags).eraseDups.take 10 })
+    | "smserver" :: "hist" :: rest =>
+      let (i', j) := judgeSMServer dict st.intern ((kvNat rest "cfg").getD 0) ((kv rest "local").getD "v4")
+        ((kv rest "regs").getD "-") ((kv rest "segs").getD "") implToks
+      ({ st with intern := i' }, emit idx impl j)
     | "dict" :: "query" :: rest =>
       let (i', j) := judgeDict st.intern ((kv rest "set").getD "default") (kvNat rest "k") ((kv rest "qs").getD "-") implToks
         defaultDict.parser st.defaultLog
